@@ -3,6 +3,7 @@
   stdin, exactly one answer line per request on stdout (see DESIGN.md 2.3).
 -/
 import Tulisp
+import Tulisp.Model.Api
 open Tulisp
 
 def hexDigit (n : Nat) : Char :=
@@ -80,6 +81,8 @@ structure DState where
   /-- parked contexts of other live sessions (CTX n) -/
   parked : List (Nat × Ctx) := []
   current : Nat := 0
+  /-- the object-API heap of the current session (C20) -/
+  api : Api.State := {}
 
 /-- `eval_string` with a prebuilt evaluator -/
 def evalStringWith (r : Rec) (text : String) : M Val := do
@@ -125,9 +128,287 @@ def dumpSym (c : Ctx) (name : String) : String × Ctx :=
     | [] => "-"
   (name ++ "=" ++ toString s.items.length ++ ":" ++ top, c)
 
+
+/-! ## object API (C20) -/
+namespace ApiDrv
+open Tulisp.Api
+
+def canonStr (s : String) : String :=
+  "s:\"" ++ String.ofList ((escapeLine s).toList.flatMap fun ch =>
+    if ch = '"' then ['\\', 'q'] else if ch = ' ' then ['\\', '_'] else [ch]) ++ "\""
+
+def canonH (h : Heap) : Nat → Ref → String
+  | 0, _ => "#<deep>"
+  | fuel + 1, r =>
+    match h.get r with
+    | .nil => "nil"
+    | .t => "t"
+    | .int n => toString n
+    | .float b => if f64IsNaN b then "f:nan" else "f:" ++ hex16 b
+    | .str s => canonStr s
+    | .sym n => "y:" ++ String.ofList ((escapeLine n).toList.flatMap fun ch => if ch = ' ' then ['\\', '_'] else [ch])
+    | .cons a d => "(" ++ canonH h fuel a ++ rest h fuel d
+where
+  rest (h : Heap) : Nat → Ref → String
+    | 0, _ => ")"
+    | fuel + 1, r =>
+      match h.get r with
+      | .nil => ")"
+      | .cons a d => " " ++ canonH h fuel a ++ rest h fuel d
+      | _ => " . " ++ canonH h fuel r ++ ")"
+
+def showRef (s : State) (r : Ref) : String := canonH s.heap (s.heap.cells.size + 2) r
+
+def newHandle (s : State) (r : Ref) : State × String :=
+  ({ s with handles := s.handles.push r }, "H " ++ toString s.handles.size)
+
+def allocHandle (s : State) (o : Obj) : State × String :=
+  let (r, h) := s.heap.alloc o
+  newHandle { s with heap := h } r
+
+def handleOf (s : State) (t : String) : Option Ref :=
+  match t.trimAscii.toString.toNat? with
+  | some i => s.handles[i]?
+  | none => none
+
+def parseHex (t : String) : Option UInt64 :=
+  let cs := t.trimAscii.toString.toList
+  if cs.isEmpty then none else
+  cs.foldl (fun acc c =>
+    match acc with
+    | none => none
+    | some n =>
+      if c.isDigit then some (n * 16 + (c.toNat - 48))
+      else if c.toNat ≥ 97 && c.toNat ≤ 102 then some (n * 16 + (c.toNat - 87))
+      else none) (some 0) |>.map (·.toUInt64)
+
+def parseInt (t : String) : Option Int :=
+  let t := t.trimAscii.toString
+  match t.toList with
+  | '-' :: ds => (String.ofList ds).toNat?.map (fun n => -(n : Int))
+  | _ => t.toNat?.map (fun n => (n : Int))
+
+def carR (s : State) (r : Ref) : Except AErr (Ref × State) :=
+  match s.heap.car r with
+  | .ok (x, h) => .ok (x, { s with heap := h })
+  | .error e => .error e
+
+def cdrR (s : State) (r : Ref) : Except AErr (Ref × State) :=
+  match s.heap.cdr r with
+  | .ok (x, h) => .ok (x, { s with heap := h })
+  | .error e => .error e
+
+def path (s : State) (r : Ref) (steps : List Bool) : Except AErr (Ref × State) :=
+  -- steps applied left to right: true = car
+  steps.foldl (fun acc isA =>
+    match acc with
+    | .ok (x, st) => if isA then carR st x else cdrR st x
+    | .error e => .error e) (.ok (r, s))
+
+def resHandle (s : State) (r : Except AErr (Ref × State)) : State × String :=
+  match r with
+  | .ok (x, st) => newHandle st x
+  | .error _ => (s, "ERR")
+
+def boolStr (b : Bool) : String := if b then "true" else "false"
+
+def asInt (s : State) (r : Ref) : Option Int := match s.heap.get r with | .int n => some n | _ => none
+def tryFloat (s : State) (r : Ref) : Option UInt64 :=
+  match s.heap.get r with | .float b => some b | .int n => some (intToF64 n) | _ => none
+def asString (s : State) (r : Ref) : Option String := match s.heap.get r with | .str x => some x | _ => none
+def isNilR (s : State) (r : Ref) : Bool := s.heap.isNil r
+
+/-- `lists::plist_get` on the heap -/
+def plistGet (s : State) (prop : Ref) : Nat → Ref → Except AErr (Ref × State)
+  | 0, r => .ok (r, s)
+  | fuel + 1, r =>
+    match s.heap.get r with
+    | .cons k rest =>
+      if s.heap.eq k prop then path s r [false, true]
+      else
+        match path s r [false, false] with
+        | .ok (nx, st) => plistGet st prop fuel nx
+        | .error e => .error e
+    | _ => match s.heap.alloc .nil with | (n, h) => .ok (n, { s with heap := h })
+
+/-- the destruct_bind! patterns of the harness -/
+def destruct (s : State) (pat : String) (x : Ref) : Except AErr String :=
+  let nilRef (st : State) : Ref × State := let (n, h) := st.heap.alloc .nil; (n, { st with heap := h })
+  let opt (st : State) (vv : Ref) : Except AErr (Ref × Ref × State) :=
+    if isNilR st vv then
+      let (a, st1) := nilRef st
+      let (b, st2) := nilRef st1
+      .ok (a, b, st2)
+    else do
+      let (a, st1) ← carR st vv
+      let (d, st2) ← cdrR st1 vv
+      pure (a, d, st2)
+  if pat = "1" then do
+    let (a, s1) ← carR s x
+    let (x1, s2) ← cdrR s1 x
+    let (b, s3) ← carR s2 x1
+    let (x2, s4) ← cdrR s3 x1
+    if isNilR s4 x2 then pure (showRef s4 a ++ " " ++ showRef s4 b) else .error .typeMismatch
+  else if pat = "2" then do
+    let (a, s1) ← carR s x
+    let (x1, s2) ← cdrR s1 x
+    let (b, x2, s3) ← opt s2 x1
+    let (c, x3, s4) ← opt s3 x2
+    if isNilR s4 x3 then pure (showRef s4 a ++ " " ++ showRef s4 b ++ " " ++ showRef s4 c) else .error .typeMismatch
+  else if pat = "3" then do
+    let (a, s1) ← carR s x
+    let (r, s2) ← cdrR s1 x
+    pure (showRef s2 a ++ " " ++ showRef s2 r)
+  else if pat = "4" then do
+    let (a, s1) ← carR s x
+    let (x1, s2) ← cdrR s1 x
+    let (b, x2, s3) ← opt s2 x1
+    pure (showRef s3 a ++ " " ++ showRef s3 b ++ " " ++ showRef s3 x2)
+  else .error .undefined
+
+def split3 (rest : String) : String × String × String :=
+  let (op, r1) := splitCmd rest
+  let (a1, a2) := splitCmd r1
+  (op, a1, a2)
+
+end ApiDrv
+
+open ApiDrv Tulisp.Api in
+def apiHandle (s : State) (rest : String) : State × String :=
+  let (op, a1, a2) := split3 rest
+  let hs (t : String) : Option (List Ref) := ((t.splitOn " ").filter (· != "")).mapM (handleOf s)
+  if op = "new" then
+    if a1 = "int" then (match parseInt a2 with | some n => allocHandle s (.int n) | none => (s, "BADCMD"))
+    else if a1 = "float" then (match parseHex a2 with | some b => allocHandle s (.float b) | none => (s, "BADCMD"))
+    else if a1 = "str" then allocHandle s (.str (unescapeLine a2))
+    else if a1 = "bool" then allocHandle s (if a2.trimAscii.toString = "1" then .t else .nil)
+    else if a1 = "nil" then allocHandle s .nil
+    else if a1 = "t" then allocHandle s .t
+    else if a1 = "sym" then
+      -- interned symbols are one object per name: reuse the cell
+      let name := a2.trimAscii.toString
+      match (List.range s.heap.cells.size).find? (fun i => s.heap.get i == .sym name) with
+      | some r => newHandle s r
+      | none => allocHandle s (.sym name)
+    else (s, "BADCMD")
+  else if op = "cons" || op = "push" || op = "append" || op = "eq" || op = "equal" || op = "plist_get" then
+    match hs (a1 ++ " " ++ a2) with
+    | some [x, y] =>
+      if op = "cons" then allocHandle s (.cons x y)
+      else if op = "push" then
+        (match s.heap.push x y with | .ok h => ({ s with heap := h }, "OK") | .error _ => (s, "ERR"))
+      else if op = "append" then
+        (match s.heap.append x y with | .ok h => ({ s with heap := h }, "OK") | .error _ => (s, "ERR"))
+      else if op = "eq" then (s, "BOOL " ++ boolStr (s.heap.eq x y))
+      else if op = "equal" then (s, "BOOL " ++ boolStr (s.heap.equal (s.heap.cells.size + 2) x y))
+      else resHandle s (plistGet s y (s.heap.cells.size + 2) x)
+    | _ => (s, "BADCMD")
+  else if op = "list" || op = "fromiter" then
+    match hs (a1 ++ " " ++ a2) with
+    | some xs =>
+      let (l, h0) := s.heap.alloc .nil
+      let r := xs.foldl (fun (acc : Except AErr Heap) x =>
+        match acc with | .ok h => h.push l x | .error e => .error e) (.ok h0)
+      (match r with | .ok h => newHandle { s with heap := h } l | .error _ => (s, "ERR"))
+    | none => (s, "BADCMD")
+  else if op = "car" || op = "cdr" || op = "cadr" || op = "cddr" || op = "caar" || op = "cdar" || op = "caddr" then
+    match handleOf s a1 with
+    | some r =>
+      let steps : List Bool :=
+        if op = "car" then [true] else if op = "cdr" then [false] else if op = "cadr" then [false, true]
+        else if op = "cddr" then [false, false] else if op = "caar" then [true, true]
+        else if op = "cdar" then [true, false] else [false, false, true]
+      resHandle s (path s r steps)
+    | none => (s, "BADCMD")
+  else if op = "deepcopy" then
+    match handleOf s a1 with
+    | some r => let (c, h) := s.heap.deepCopy r; newHandle { s with heap := h } c
+    | none => (s, "BADCMD")
+  else if op = "showlast" then
+    (match s.handles.back? with
+     | some r => (s, "OK " ++ showRef s r)
+     | none => (s, "BADCMD"))
+  else if op = "show" then
+    match handleOf s a1 with
+    | some r => (s, "OK " ++ showRef s r)
+    | none => (s, "BADCMD")
+  else if op = "len" then
+    match handleOf s a1 with
+    | some r => (s, "N " ++ toString (s.heap.elems r).length)
+    | none => (s, "BADCMD")
+  else if op = "iter" then
+    match handleOf s a1 with
+    | some r =>
+      let kind := a2.trimAscii.toString
+      let items := (s.heap.elems r).map fun x =>
+        if kind = "int" then (match asInt s x with | some n => toString n | none => "ERR")
+        else if kind = "float" then (match tryFloat s x with | some b => hex16 b | none => "ERR")
+        else if kind = "str" then (match asString s x with
+          | some t => String.ofList ((escapeLine t).toList.flatMap fun ch => if ch = ' ' then ['\\', '_'] else [ch])
+          | none => "ERR")
+        else showRef s x
+      (s, "ITER " ++ " ".intercalate items)
+    | none => (s, "BADCMD")
+  else if op = "conv" then
+    match handleOf s a1 with
+    | some r =>
+      let k := a2.trimAscii.toString
+      let o := s.heap.get r
+      let ans : String :=
+        if k = "as_int" || k = "i64" then (match o with | .int n => "V " ++ toString n | _ => "ERR")
+        else if k = "try_int" then (match o with | .int n => "V " ++ toString n | .float b => "V " ++ toString (f64ToI64Trunc b) | _ => "ERR")
+        else if k = "as_float" then (match o with | .float b => "V " ++ hex16 b | _ => "ERR")
+        else if k = "try_float" || k = "f64" then (match tryFloat s r with | some b => "V " ++ hex16 b | none => "ERR")
+        else if k = "as_string" || k = "string" then (match o with | .str t => "V " ++ escapeLine t | _ => "ERR")
+        else if k = "as_symbol" then (match o with | .sym n => "V " ++ escapeLine n | _ => "ERR")
+        else if k = "bool" then "V " ++ boolStr (o != .nil)
+        else if k = "opt_i64" then (match o with | .nil => "V None" | .int n => "V Some(" ++ toString n ++ ")" | _ => "ERR")
+        else if k = "opt_string" then (match o with | .nil => "V None" | .str t => "V " ++ escapeLine t | _ => "ERR")
+        else if k = "preds" then
+          let isC := s.heap.isCons r
+          let isN := o == .nil
+          let isI := match o with | .int _ => true | _ => false
+          let isF := match o with | .float _ => true | _ => false
+          let isS := match o with | .str _ => true | _ => false
+          let isY := match o with | .sym _ => true | _ => false
+          let isK := match o with | .sym n => n.startsWith ":" | _ => false
+          "V " ++ " ".intercalate ([isC, isC || isN, isI, isF, isI || isF, isS, isY, isN, isK].map boolStr)
+        else "BADCMD"
+      (s, ans)
+    | none => (s, "BADCMD")
+  else if op = "db" then
+    match handleOf s a2 with
+    | some r => (match destruct s a1 r with | .ok t => (s, "DB " ++ t) | .error _ => (s, "ERR"))
+    | none => (s, "BADCMD")
+  else if op = "sym" then
+    let ps := (a2.splitOn " ").filter (· != "")
+    let name := ps.headD ""
+    let arg := (ps.drop 1).head?.bind (handleOf s)
+    if a1 = "set" || a1 = "setscope" then
+      match arg with
+      | some v =>
+        let r := if a1 = "set" then s.symSet name v else s.symPush name v
+        (match r with | .ok s' => (s', "OK") | .error _ => (s, "ERR"))
+      | none => (s, "BADCMD")
+    else if a1 = "unset" then (match s.symPop name with | .ok s' => (s', "OK") | .error _ => (s, "ERR"))
+    else if a1 = "get" then
+      match s.symGet name with
+      | .ok (some r) => newHandle s r
+      | .ok none =>
+        (match (List.range s.heap.cells.size).find? (fun i => s.heap.get i == .sym name) with
+         | some r => newHandle s r
+         | none => allocHandle s (.sym name))
+      | .error _ => (s, "ERR")
+    else if a1 = "boundp" then (s, "BOOL " ++ boolStr (s.symBoundp name))
+    else (s, "BADCMD")
+  else (s, "BADCMD")
+
 def handle (st : DState) (line : String) : DState × String :=
   let (cmd, rest) := splitCmd line
-  if cmd = "NEW" then ({ st with ctx := Ctx.initial }, "OK")
+  if cmd = "NEW" then ({ st with ctx := Ctx.initial, api := {} }, "OK")
+  else if cmd = "API" then
+    let (a', ans) := apiHandle st.api rest
+    ({ st with api := a' }, ans)
   else if cmd = "#" || cmd = "" then (st, "OK")
   else if cmd = "DEPTH" then (let d := rest.trimAscii.toString.toNat?.getD 12000
                               { st with depth := d, ev := Rec.ofDepth d }, "OK")
